@@ -164,19 +164,31 @@ class Ctx:
         name = name or adapter
         vh = vh or self.vh
 
+        # tours / simulated behaviours are computed ONCE and written shard by shard; the shards only execute
+        prefix = self.path("beh", name)
+        cmd = [vh, "tours", "-out", prefix, "-shards", str(shards), "-seed", str(self.seed), "-maxlen", str(maxlen), "-limit", str(limit)]
+        cmd += ["-graph", graph] if graph else ["-sim", sim]
+        t0 = time.time()
+        r = self.sh(cmd, timeout=timeout, check=False)
+        if r.returncode != 0:
+            raise Broken("vh tours %s failed (rc=%d)\n%s" % (name, r.returncode, r.stdout[-3000:]))
+        ginfo = json.loads(r.stdout.strip().splitlines()[-1])
+        self.log("tours for %s: %d behaviours (%d selected) over %d edges in %.1fs" % (
+            name, ginfo["behaviours_total"], ginfo["behaviours_selected"], ginfo["graph_edges"], time.time() - t0))
+
         def one(i):
             out = self.path("traces", "%s.%d.ndjson" % (name, i))
             summ = self.path("traces", "%s.%d.summary.json" % (name, i))
-            cmd = [vh, "replay", "-adapter", adapter, "-out", out, "-summary", summ, "-shard", "%d/%d" % (i, shards),
-                   "-seed", str(self.seed), "-maxlen", str(maxlen), "-limit", str(limit)]
-            cmd += ["-graph", graph] if graph else ["-sim", sim]
+            cmd = [vh, "replay", "-adapter", adapter, "-out", out, "-summary", summ, "-beh", "%s.%d.beh" % (prefix, i)]
             e = {"VERIF_SCRATCH_DIR": self.path("work", "%s.%d" % (name, i), ".keep")[:-6], "VERIF_SEED": str(self.seed)}
             if env:
                 e.update(env)
             r = self.sh(cmd, timeout=timeout, env=e, check=False)
             if r.returncode != 0:
                 raise Broken("vh replay %s shard %d failed (rc=%d)\n%s" % (adapter, i, r.returncode, r.stdout[-3000:]))
-            return out, json.load(open(summ))
+            s = json.load(open(summ))
+            s.update(ginfo)
+            return out, s
 
         t = time.time()
         with concurrent.futures.ThreadPoolExecutor(shards) as ex:
